@@ -515,5 +515,8 @@ def main(argv):
         rp = json.load(open(argv[argv.index("--replay") + 1]))
         os.environ["VERIF_SEED"] = str(rp.get("replay", {}).get("seed", rp.get("seed", 1)))
         print(json.dumps(rp, indent=1)[:4000])
-        return check(argv[1], rp.get("tier", argv[2]))
-    return check(argv[1], argv[2])
+        with Lock("global"):
+            return check(argv[1], rp.get("tier", argv[2]))
+    # one check at a time: the tree-under-test link and the cargo target dirs are shared
+    with Lock("global"):
+        return check(argv[1], argv[2])
